@@ -69,6 +69,23 @@ func C01(c *Ctx) {
 				scs = append(scs, r.Scalar())
 				pts = append(pts, r.Point())
 			}
+			// zero and one scalars, identity and repeated-by-value points are ordinary inputs of
+			// multi-scalar calls (batch verification with trivial terms) and typical fast-path bait
+			if nterm >= 1 {
+				switch r.Intn(8) {
+				case 0:
+					scs[r.Intn(nterm)] = gen.SC{K: big.NewInt(0), Class: "zero"}
+				case 1:
+					scs[r.Intn(nterm)] = gen.SC{K: big.NewInt(1), Class: "one"}
+				case 2:
+					j := r.Intn(nterm)
+					pts[j] = r.PointFor(ref.Identity(), "identity")
+				case 3:
+					if nterm >= 2 { // same value, different object and representation
+						pts[1] = r.PointFor(pts[0].M, pts[0].Class)
+					}
+				}
+			}
 			if nterm >= 2 {
 				switch special {
 				case 0: // same point repeated (also same pointer)
